@@ -204,7 +204,7 @@ package client
 //@   loop hostname: invariant idx: -1 <= rangeindex#2 && rangeindex#2 < len(registered) && len(tunnels) == n0 && fresh(tunnels) && fresh(available) && 0 <= len(available) && len(available) <= rangeindex#2 + 1 && nav == len(available) && !requested && !failed && (forall h string :: !fresh[h]) && available.ref != registered.ref && (forall j int {registered[j]} :: (0 <= j && j < len(registered)) ==> registered[j] == reg0[j])
 //@   loop hostname: invariant copy-kept: forall i int {tunnels[i]} :: (0 <= i && i < n0) ==> tunnels[i] == t0[i]
 //@   loop hostname: invariant reusable-names: forall a int {available[a]} {av0[a]} :: (0 <= a && a < len(available)) ==> (available[a] == av0[a] && 0 <= asrc[a] && asrc[a] <= rangeindex#2 && available[a] == registered[asrc[a]] && reusable(inused, available[a]))
-//@   loop hostname: invariant in-registration-order: forall a, b int {asrc[a], asrc[b]} :: (0 <= a && a < b && b < len(available)) ==> asrc[a] < asrc[b]
+//@   loop hostname: invariant in-registration-order: (forall a, b int {asrc[a], asrc[b]} :: (0 <= a && a < b && b < len(available)) ==> asrc[a] < asrc[b]) && (forall a int {asrc[a]} :: (0 <= a && a < len(available)) ==> (0 <= asrc[a] && asrc[a] <= rangeindex#2))
 //@   loop hostname: invariant all-reusable-names-collected: forall j int {apos[j]} {reg0[j]} :: (0 <= j && j <= rangeindex#2 && reusable(inused, registered[j])) ==> (0 <= apos[j] && apos[j] < len(available) && available[apos[j]] == registered[j])
 //@   loop i: invariant idx: -1 <= rangeindex#3 && rangeindex#3 < n0 && len(tunnels) == n0 && fresh(tunnels) && 0 <= len(available) && len(available) <= nav && !requested
 //@   loop i: invariant every-reusable-registered-name-is-in-the-pool: forall j int {apos[j]} {reg0[j]} :: (0 <= j && j < len(registered) && reusable(inused, reg0[j])) ==> (0 <= apos[j] && apos[j] < nav && av0[apos[j]] == reg0[j])
